@@ -83,12 +83,14 @@ ASSUMPTIONS = [
     "(a pandas 2-D table may carry the start frame's row labels) and Series cells the default time index 0..t-1: the canonicaliser flags anything else, so a deviation shows as a disagreement",
     "a long table is keyed by instance identifier, not by position: the oracle expects the instances back from from_long_to_nested in ascending identifier order (what pivot does), "
     "exactly as the text says for variables; with non-ascending identifiers this is a re-ordering of the rows relative to the original nested frame (observation, not reported as a defect)",
-    "values are finite floats (dyadic rationals in the stream); no NaN; conversions never inspect values (the model is polymorphic in the value type)",
+    "values are finite numbers (dyadic rationals; whole numbers where a cell / column / array is integer-typed); no NaN; conversions never inspect values (the model is polymorphic in the value type); "
+    "dtypes are not part of the tokens: promotion to a common dtype is invisible, a changed number is a values failure",
     "column names are python str or int, pairwise distinct, not mixed within one frame (duplicate / reserved names only in the malformed stream)",
     "frames that would contain NaN after pd.concat / pivot (unequal series lengths inside from_nested_to_multi_index, incomplete long tables) are outside the model (E:unmodelled, never generated)",
     "the name attribute of the Series in the cells is irrelevant to every converter (since 89ac2e4); the stream includes cells named by column, by instance and in permuted order, sent to the same model line as unnamed cells",
 ]
-RULE = ("conversion after a selection: every converter and every path of length <= 2 on sub-panels OBTAINED from a bigger container by .loc list / boolean mask / .iloc / reversal "
+RULE = ("cell dtypes: start containers are float64 or (about 2/3 of the cases) carry int64 / int32 / float32 cells, columns or instances (first-only, last-only, per-column mixes, uniform); "
+        "values are compared as numbers; conversion after a selection: every converter and every path of length <= 2 on sub-panels OBTAINED from a bigger container by .loc list / boolean mask / .iloc / reversal "
         "of the instances, a column subset, a time prefix (stale MultiIndex levels, non-default row labels, numpy views) and on Fortran / transposed-view / strided 3-D and 2-D arrays, "
         "with the clause convert(select(P)) == select(convert(P)); "
         "exhaustive small scope: shapes (1..3)x(1..3)x(1..4) x name sets (default / str / str-unsorted / int) x start container (5 kinds; for nested / multi-index / long starts the instance "
@@ -255,23 +257,28 @@ def to_line(c):
 
 
 # ------------------------------------------------------------------ real objects
-def _mk_cell(c, sname=None):
+def _mk_cell(c, sname=None, dtype="float64"):
     if c[0] == "S":
-        return pd.Series(np.array(c[1], dtype=float), name=sname)
+        return pd.Series(np.array(c[1], dtype=dtype), name=sname)
     if c[0] == "R":
-        return np.array(c[1], dtype=float)
+        return np.array(c[1], dtype=dtype)
     return float(c[1])
 
 
 def build(r):
     k = r["k"]
+    dt = r.get("dt")          # cell / column / array dtypes (default float64 everywhere); the values are the same numbers
     if k == "A":
-        return np.array(r["v"], dtype=float)
+        return np.array(r["v"], dtype=dt or "float64")
     if k == "T":
-        a = np.array(r["rows"], dtype=float)
+        a = np.array(r["rows"], dtype=(dt if isinstance(dt, str) else "float64"))
         if r["labels"] is None:
             return a
-        return pd.DataFrame(a, columns=list(r["labels"]))
+        df = pd.DataFrame(a, columns=list(r["labels"]))
+        if isinstance(dt, list):
+            for j, d in enumerate(dt):
+                df.isetitem(j, df.iloc[:, j].astype(d))
+        return df
     if k == "N":
         mode = r.get("snames")
         n = len(r["cols"][0]) if r["cols"] else 0
@@ -286,7 +293,7 @@ def build(r):
                     sname = i
                 elif mode == "perm":
                     sname = "q%d" % ((j + i) % len(r["cols"]))
-                cells.append(_mk_cell(c, sname))
+                cells.append(_mk_cell(c, sname, dt[j][i] if dt else "float64"))
             if all(c[0] == "P" for c in col):
                 data[j] = pd.Series(cells, dtype=float, index=range(n))
             else:
@@ -302,6 +309,9 @@ def build(r):
     if k == "M":
         idx = pd.MultiIndex.from_tuples([(i, t) for i, t, _ in r["rows"]], names=[r["inst"], r["time"]])
         df = pd.DataFrame(np.array([vs for _, _, vs in r["rows"]], dtype=float).reshape(len(r["rows"]), len(r["names"])), index=idx)
+        if dt:
+            for j, d in enumerate(dt):
+                df.isetitem(j, df.iloc[:, j].astype(d))
         df.columns = list(r["names"])
         return df
     if k == "L":
@@ -309,7 +319,7 @@ def build(r):
         return pd.DataFrame({r["inst"]: pd.Series([x[0] for x in rows], dtype=(object if any(isinstance(x[0], str) for x in rows) else "int64")),
                              r["time"]: pd.Series([x[1] for x in rows], dtype="int64"),
                              r["dim"]: pd.Series([x[2] for x in rows], dtype=(object if any(isinstance(x[2], str) for x in rows) else "int64")),
-                             "value": pd.Series([x[3] for x in rows], dtype=float)})
+                             "value": pd.Series([x[3] for x in rows], dtype=dt or "float64")})
     if k == "O":
         return [[1.0, 2.0]]
     raise ValueError(k)
@@ -1022,6 +1032,10 @@ def features(c, out):
             f.append("shape=%s,%s,%s" % tuple(str(x) if x <= 4 else "5+" for x in (len(v), len(v[0]), len(v[0][0]))))
             nm = p.get("names")
             f.append("names=" + ("default" if nm is None or nm == default_names(len(nm)) else "int" if nm and isinstance(nm[0], int) else "str"))
+        sdt = (c["via"]["big"] if c.get("via") else c["start"]).get("dt")
+        if sdt is not None:
+            flat = [sdt] if isinstance(sdt, str) else [x for y in sdt for x in (y if isinstance(y, list) else [y])]
+            f.append("dtypes=" + ("uniform-" + flat[0] if len(set(flat)) == 1 else "mixed"))
         if c.get("via"):
             v = c["via"]
             f.append("via=" + "+".join([x for x in (("inst-" + str(v.get("how"))) if v.get("inst") is not None else None,
@@ -1074,6 +1088,58 @@ def mk_names(rng, c, kind):
     return nm
 
 
+DT_MODES = [None, None, None, "all-int64", "all-int32", "all-float32", "first-cell-int", "last-cell-int", "first-col-int", "last-col-int",
+            "first-inst-int", "last-inst-int", "cols-mixed", "first-cell-int32", "first-inst-float32"]
+
+
+def apply_dtypes(rng, kind, vals, mode, pandas2d=False):
+    """(values, dt): the panel with whole numbers wherever the container stores integers, and the dtype description of the start
+    container.  Nested frames are typed cell by cell, multi-index frames / pandas 2-D tables column by column, arrays and the
+    value column of a long table as a whole.  The NUMBERS are what the property speaks about: promotion to a common dtype is
+    fine, truncation is not."""
+    import math
+    if mode is None:
+        return vals, None
+    n, c, t = len(vals), len(vals[0]), len(vals[0][0])
+    mixed = [rng.choice(["int64", "int32", "float32", "float64"]) for _ in range(c)]
+
+    def plan(i, j):
+        if mode.startswith("all-"):
+            return mode[4:]
+        it = "int32" if mode.endswith("int32") else "float32" if mode.endswith("float32") else "int64"
+        if mode.startswith("first-cell"):
+            return it if (i, j) == (0, 0) else "float64"
+        if mode == "last-cell-int":
+            return it if (i, j) == (n - 1, c - 1) else "float64"
+        if mode == "first-col-int":
+            return it if j == 0 else "float64"
+        if mode == "last-col-int":
+            return it if j == c - 1 else "float64"
+        if mode.startswith("first-inst"):
+            return it if i == 0 else "float64"
+        if mode == "last-inst-int":
+            return it if i == n - 1 else "float64"
+        return mixed[j]
+    if kind == "N":
+        cell = [[plan(i, j) for i in range(n)] for j in range(c)]           # dt[j][i]
+        eff = lambda i, j: cell[j][i]
+        dt = cell
+    elif kind == "M" or (kind == "T" and pandas2d):
+        col = [plan(0, j) if not mode.startswith(("first-cell", "last-cell", "first-inst", "last-inst")) else "float64" for j in range(c)]
+        if kind == "M":
+            eff = lambda i, j: col[j]
+            dt = col
+        else:
+            eff = lambda i, j: col[j]
+            dt = [col[j] for j in range(c) for _ in range(t)]
+    else:
+        one = mode[4:] if mode.startswith("all-") else "float64"
+        eff = lambda i, j: one
+        dt = one
+    out = [[[float(math.floor(x)) if eff(i, j).startswith("int") else x for x in vals[i][j]] for j in range(c)] for i in range(n)]
+    return out, dt
+
+
 def mk_ids(rng, n, mode):
     """instance identifiers: the panel's instances are NOT in ascending identifier order"""
     if mode == "perm":
@@ -1096,7 +1162,14 @@ def mk_ids(rng, n, mode):
 ID_MODES = [None, None, "perm", "gap", "str", "desc"]
 
 
-def start_rep(rng, kind, vals, names, cellkind="S", levels=None, longcols=None, shuffle=False, pandas2d=False, ids=None):
+def start_rep(rng, kind, vals, names, cellkind="S", levels=None, longcols=None, shuffle=False, pandas2d=False, ids=None, dt=None):
+    rep = _start_rep(rng, kind, vals, names, cellkind, levels, longcols, shuffle, pandas2d, ids)
+    if dt is not None:
+        rep["dt"] = dt
+    return rep
+
+
+def _start_rep(rng, kind, vals, names, cellkind="S", levels=None, longcols=None, shuffle=False, pandas2d=False, ids=None):
     n, c, t = len(vals), len(vals[0]), len(vals[0][0])
     nm = names if names is not None else default_names(c)
     il = ids if ids is not None else list(range(n))
@@ -1231,8 +1304,10 @@ def gen_small(tier, rng, cases):
                     vals = mk_vals(rng, n, c, t)
                     names = mk_names(rng, c, nk)
                     ids = mk_ids(rng, n, rng.choice(ID_MODES)) if sk in ("N", "M", "L") else None
+                    p2d = rng.random() < 0.5
+                    vals, dt = apply_dtypes(rng, sk, vals, rng.choice(DT_MODES), p2d)
                     rep = start_rep(rng, sk, vals, names, cellkind=rng.choice(["S", "R"]), levels=rng.choice(LEVELS),
-                                    longcols=rng.choice(LONGCOLS), shuffle=rng.random() < 0.3, pandas2d=rng.random() < 0.5, ids=ids)
+                                    longcols=rng.choice(LONGCOLS), shuffle=rng.random() < 0.3, pandas2d=p2d, ids=ids, dt=dt)
                     panel = {"vals": vals, "names": names if names is not None else default_names(c)}
                     if ids is not None:
                         panel["ids"] = ids
@@ -1253,8 +1328,10 @@ def gen_random(tier, rng, cases):
         vals = mk_vals(rng, n, c, t, mode=rng.choice(["distinct", "dyadic"]))
         names = mk_names(rng, c, nk)
         ids = mk_ids(rng, n, rng.choice(ID_MODES)) if sk in ("N", "M", "L") else None
+        p2d = rng.random() < 0.5
+        vals, dt = apply_dtypes(rng, sk, vals, rng.choice(DT_MODES), p2d)
         rep = start_rep(rng, sk, vals, names, cellkind=rng.choice(["S", "R"]), levels=rng.choice(LEVELS),
-                        longcols=rng.choice(LONGCOLS), shuffle=rng.random() < 0.5, pandas2d=rng.random() < 0.5, ids=ids)
+                        longcols=rng.choice(LONGCOLS), shuffle=rng.random() < 0.5, pandas2d=p2d, ids=ids, dt=dt)
         ops = rng.choice(op_paths(sk, 4))
         panel = {"vals": vals, "names": names if names is not None else default_names(c)}
         if ids is not None:
@@ -1442,7 +1519,8 @@ def gen_select(tier, rng, cases):
                 ids = mk_ids(rng, n, rng.choice([None, None, "perm", "gap", "str"])) if kind in ("N", "M", "L") else None
                 meta = {"cellkind": rng.choice(["S", "R"]), "levels": rng.choice(LEVELS), "longcols": rng.choice(LONGCOLS),
                         "pandas2d": kind == "T" and rng.random() < 0.5}
-                big_rep = start_rep(rng, kind, vals, names if kind != "A" else None, ids=ids, shuffle=False, **meta)
+                vals, dt = apply_dtypes(rng, kind, vals, rng.choice(DT_MODES), meta["pandas2d"])
+                big_rep = start_rep(rng, kind, vals, names if kind != "A" else None, ids=ids, shuffle=False, dt=dt, **meta)
                 big_panel = {"vals": vals, "names": names}
                 if ids is not None:
                     big_panel["ids"] = ids
@@ -1524,18 +1602,29 @@ def shrink(c):
                         pandas2d=(k == "T" and start["labels"] is not None), ids=ids if k in ("N", "M", "L") else None)
         if k == "N" and start.get("snames"):
             rep["snames"] = start["snames"]
+        dt0 = start.get("dt")
+        if dt0 is not None and not c.get("via"):
+            # keep the dtypes of the cells / columns that survive (values of integer cells stay whole numbers)
+            if isinstance(dt0, str):
+                rep["dt"] = dt0
+            elif k == "N" and len(v) <= len(dt0[0]) and len(v[0]) <= len(dt0) and v == [row[:len(v[0])] for row in vals[:len(v)]]:
+                rep["dt"] = [col[:len(v)] for col in dt0[:len(v[0])]]
+            elif k == "M" and len(v[0]) == len(dt0):
+                rep["dt"] = dt0
         pn = {"vals": v, "names": nm}
         if ids is not None and k in ("N", "M", "L"):
             pn["ids"] = ids
         return dict(c, start=rep, panel=pn)
     if n > 1:
-        for i in range(n):
+        for i in (range(n) if start.get("dt") is None else [n - 1]):
             yield rebuild(vals[:i] + vals[i + 1:], names, None if ids0 is None else ids0[:i] + ids0[i + 1:])
     if t > 1:
         yield rebuild([[col[:-1] for col in inst] for inst in vals], names)
     if ncol > 1 and not any(((h[1] if h[0] in ("3n", "2n") else h[3] if h[0] == "3m" else h[4] if h[0] == "ln" else None) is not None) for h in hops):
-        for j in range(ncol):
+        for j in (range(ncol) if start.get("dt") is None else [ncol - 1]):
             yield rebuild([inst[:j] + inst[j + 1:] for inst in vals], names[:j] + names[j + 1:])
+    if start.get("dt") is not None:
+        return
     simple = [[[float((i * ncol + j) * t + q) for q in range(t)] for j in range(ncol)] for i in range(n)]
     if simple != vals:
         yield rebuild(simple, names)
